@@ -1,7 +1,7 @@
 (* C06 — selection, restriction and picking have their relational meaning. *)
 From Coq Require Import List NArith Bool. Import ListNotations.
 From BddVerif Require Import Model.Bdd Model.Apply Model.Ops Model.Restrict Proofs.Sem Proofs.Canon Proofs.ApplySem Proofs.ApplyTop
-  Proofs.RelSem Proofs.PvalSem Proofs.PickSem Proofs.Restrict.
+  Proofs.RelSem Proofs.PvalSem Proofs.PickSem Proofs.Restrict Proofs.GapsPick.
 Open Scope N_scope.
 
 (* select keeps exactly the valuations of the operand that agree with the literals (a repeated variable: last literal wins) *)
@@ -121,3 +121,30 @@ Example C06_restrict_faithful_nonvacuous :
   restrict_faithful n [(2, true)] = Some [mkNode 3 0 0; mkNode 3 1 1; mkNode 1 0 1].
 Proof. vm_compute. repeat split; reflexivity. Qed.
 Print Assumptions C06_restrict_faithful_nonvacuous.
+
+(* pick_random over a subset of the variables, for EVERY script of RNG outcomes (any list of bits; a script that is
+   too short reads `true` once exhausted — `next_bit []`): the same relational statement as C06_pick.  The bits
+   are consumed in ascending variable order (the recursion on the prefix of the sorted list runs before
+   `var_pick_random(last_var, rng)`). *)
+Theorem C06_pick_random : forall b vars script, wf b -> NoDup vars -> Forall (fun x => x < nvars b) vars ->
+  exists r, pick_random b vars script = Ok r /\ wf r /\ (vars <> [] \/ Canonical b -> Canonical r) /\ nvars r = nvars b /\
+    (forall v, eval r v = true -> eval b v = true) /\
+    (forall v, eval b v = true -> exists w, agree_outside vars w v /\ eval r w = true) /\
+    (forall v w1 w2, agree_outside vars w1 v -> agree_outside vars w2 v -> eval r w1 = true -> eval r w2 = true ->
+       forall y, In y vars -> w1 y = w2 y).
+Proof. exact pick_random_correct. Qed.
+Print Assumptions C06_pick_random.
+
+(* b = x0 \/ x1 over 3 variables, picking over {x1, x0}: [false;false] is pick; [true;true] and the exhausted script
+   keep x0=1,x1=1; [true;false] keeps x0=1,x1=0 (x0 draws first); a short script is completed with `true` *)
+Example C06_pick_random_example :
+  let b := [mkNode 3 0 0; mkNode 3 1 1; mkNode 1 0 1; mkNode 0 2 1] in
+  wfb b = true /\
+  pick_random b [1; 0] [false; false] = pick b [1; 0] /\
+  pick_random b [1; 0] [false; false] = Ok [mkNode 3 0 0; mkNode 3 1 1; mkNode 1 0 1; mkNode 0 2 0] /\
+  pick_random b [1; 0] [true; true] = Ok [mkNode 3 0 0; mkNode 3 1 1; mkNode 1 0 1; mkNode 0 0 2] /\
+  pick_random b [1; 0] [] = pick_random b [1; 0] [true; true] /\
+  pick_random b [1; 0] [false] = pick_random b [1; 0] [false; true] /\
+  pick_random b [1; 0] [true; false] = Ok [mkNode 3 0 0; mkNode 3 1 1; mkNode 1 1 0; mkNode 0 0 2].
+Proof. exact pick_random_example. Qed.
+Print Assumptions C06_pick_random_example.
